@@ -120,6 +120,49 @@ def gen_score(rng, m, n_ballots=None, partial=True, maxgrade=5):
     return [[json.loads(k), str(w)] for k, w in seen.items()]
 
 
+def gen_score_partial_heavy(rng, m):
+    """PARTIAL score ballots in a narrow grade band with weights up to 30: candidates hold different numbers of grades and share
+    their median - the default tie-break of majority judgment then removes median grades candidate by candidate, and how many it
+    removes per step must not depend on which tied candidate comes first"""
+    lo = rng.choice([0, 1, 2])
+    band = [lo, lo + 1, lo + 2]
+    seen = {}
+    for _ in range(rng.randint(2, 5)):
+        k = rng.randint(1, m)
+        cands = sorted(rng.sample(range(m), k))
+        key = json.dumps([[c, rng.choice(band)] for c in cands])
+        seen[key] = seen.get(key, 0) + rng.choice([1, 2, 3, 5, 8, 13, 21, 30])
+    return [[json.loads(k), str(v)] for k, v in seen.items()]
+
+
+def gen_approval_level(rng, m):
+    """approval profiles on which a LATER seat of a sequential / proportional rule is an exact tie or a one-vote race between a
+    ballot group already reweighted (it contains an elected candidate) and an untouched one: {A}: 10u, {A,B}: 6u (+d), {C}: 3u
+    - after A, B holds 6u/2 against C's 3u"""
+    a, b, c = rng.sample(range(m), 3) if m >= 3 else (0, 1, 2)
+    u = rng.choice([1, 1, 2, 3])
+    d = rng.choice([0, 0, 2, -2])
+    prof = [[[a], str(10 * u)], [sorted([a, b]), str(6 * u + d)], [[c], str(3 * u)]]
+    if m > 3 and rng.random() < 0.5:
+        e = [x for x in range(m) if x not in (a, b, c)][0]
+        prof.append([[e], str(rng.randint(1, 2))])
+    rng.shuffle(prof)
+    return prof
+
+
+def gen_ranked_shared_only(rng, m):
+    """ranked profiles in which some candidate appears ONLY inside shared ranks (never alone at a rank), with enough weight on those
+    ballots that it reaches two quotas when many seats are filled"""
+    m = max(m, 4)
+    a, b, c = 0, 1, 2
+    w = rng.choice([6, 8, 10])
+    prof = [[[[a, b]], str(w)], [[[a, c]], str(w)], [[3], str(rng.randint(1, 3))]]
+    if rng.random() < 0.5:
+        prof.append([[[b, c], 3], str(rng.randint(1, 2))])
+    rng.shuffle(prof)
+    return prof
+
+
 def gen_score_tied(rng, m):
     """tie-heavy score profiles: full ballots over all m candidates with grades from a narrow band, equal weights - the shape on
     which medians, means and sums of several candidates coincide and the tie-breaks of the cardinal evaluators run"""
@@ -340,6 +383,12 @@ def gen_profile(rng, vtype, m):
         return gen_approval(rng, m)
     if vtype == 'score' and rng.random() < 0.3:
         return gen_score_tied(rng, m)
+    if vtype == 'score' and rng.random() < 0.2:
+        return gen_score_partial_heavy(rng, m)
+    if vtype == 'approval' and m >= 3 and rng.random() < 0.15:
+        return gen_approval_level(rng, m)
+    if vtype == 'ranked' and m >= 4 and rng.random() < 0.05:
+        return gen_ranked_shared_only(rng, m)
     if vtype == 'score':
         return gen_score(rng, m)
     if vtype == 'pairwise':
